@@ -195,7 +195,7 @@ package hessian
 //@   loop 1 invariant [C14:notify-index] true
 
 //@ func ConvertSliceValueType
-//@   assigns @rset
+//@   assigns @rset, @E
 //@   loop 1 invariant [C14:convert-index] 0 <= i
 //@   ensures [C14:convert-total] true
 
